@@ -377,6 +377,7 @@ fn byte_patterns(b: u8, all: bool) -> Vec<u8> {
 
 /// Everything done to one candidate file.  Returns (opened, violations).
 fn exercise(bytes: &[u8], full_battery: bool) -> (bool, Vec<(String, String)>) {
+    crate::snapshot::ACCESSOR_CHECKS.store(false, std::sync::atomic::Ordering::Relaxed);
     let mut out = Vec::new();
     let mut h = match catch(|| Harness::open(bytes.to_vec())) {
         Err(p) => return (false, vec![(format!("panic:open:{}", panic_site(&p)), format!("Package::open panicked: {}", p))]),
